@@ -88,11 +88,14 @@ def h1(rep, w):
     comparable = set()
     if sw3:
         first = sw3[0]
-        for v, tb in first[1].items():
-            # the nested switch on the other operand must have a case for the same variant
+        for v in variants:
+            # the arm this kind takes at the first switch (its own, or the wild-card arm that hands over to a helper)
+            tb = first[1].get(v, first[2])
+            if tb is None:
+                continue
+            # a later switch (on the other operand, or inside the helper the wild-card arm delegates to) must have a case for the same variant
             for (bi, cs, oth, _) in sw3[1:]:
                 if bi in ef.reachable_blocks(tb) and v in cs:
-                    # ... reached from this arm before any other first-level arm
                     comparable.add(v)
                     break
     # unit-like variants (None) compare through the nested switch too; fall back to "arm exists" if nested missing
